@@ -2136,6 +2136,25 @@ static size_t ZSTD_decompressContinueStream(
     return 0;
 }
 
+#if defined(ZSTD_LEGACY_SUPPORT) && (ZSTD_LEGACY_SUPPORT>=1)
+/* ZSTD_decompressLegacyStream_counted() :
+ * ZSTD_decompressLegacyStream() for the legacy frame being streamed by @zds.
+ * The legacy streaming decoders do not compare what a frame regenerated with the content size of its header
+ * (ZSTD_decompress() does, for legacy frames too) : it is done here, when the frame ends (@return == 0). */
+static size_t ZSTD_decompressLegacyStream_counted(ZSTD_DStream* zds, ZSTD_outBuffer* output, ZSTD_inBuffer* input)
+{
+    size_t const outPos = output->pos;
+    size_t const hint = ZSTD_decompressLegacyStream(zds->legacyContext, zds->legacyVersion, output, input);
+    if (ZSTD_isError(hint)) return hint;
+    zds->legacyDecodedSize += output->pos - outPos;
+    RETURN_ERROR_IF((hint == 0)
+                 && (zds->legacyExpectedSize != ZSTD_CONTENTSIZE_UNKNOWN)
+                 && (zds->legacyDecodedSize != zds->legacyExpectedSize),
+                    corruption_detected, "the legacy frame did not regenerate the content size of its header");
+    return hint;
+}
+#endif
+
 size_t ZSTD_decompressStream(ZSTD_DStream* zds, ZSTD_outBuffer* output, ZSTD_inBuffer* input)
 {
     const char* const src = (const char*)input->src;
@@ -2184,7 +2203,7 @@ size_t ZSTD_decompressStream(ZSTD_DStream* zds, ZSTD_outBuffer* output, ZSTD_inB
                     "legacy support is incompatible with static dctx");
                 {   size_t const inPos = input->pos;
                     size_t const outPos = output->pos;
-                    size_t const hint = ZSTD_decompressLegacyStream(zds->legacyContext, zds->legacyVersion, output, input);
+                    size_t const hint = ZSTD_decompressLegacyStream_counted(zds, output, input);
                     if (hint==0) zds->streamStage = zdss_init;
                     /* same watchdog as for frames of the current format (see the end of this function) */
                     if (!ZSTD_isError(hint) && (hint != 0) && (input->pos == inPos) && (output->pos == outPos)) {
@@ -2245,6 +2264,10 @@ size_t ZSTD_decompressStream(ZSTD_DStream* zds, ZSTD_outBuffer* output, ZSTD_inB
                             }
                         }
                         zds->legacyVersion = zds->previousLegacyVersion = legacyVersion;
+                        zds->legacyDecodedSize = 0;
+                        zds->legacyExpectedSize = (zds->lhSize >= ZSTD_FRAMEIDSIZE) ?
+                                    ZSTD_getFrameContentSize(zds->headerBuffer, zds->lhSize) : ZSTD_getFrameContentSize(istart, (size_t)(iend-istart));
+                        if (zds->legacyExpectedSize == ZSTD_CONTENTSIZE_ERROR) zds->legacyExpectedSize = ZSTD_CONTENTSIZE_UNKNOWN;   /* the legacy decoder gives the verdict on the header */
                         if (zds->lhSize > 0) {
                             /* the legacy decoder first gets what was gathered so far, then what follows it in this input */
                             ZSTD_inBuffer gathered;
@@ -2253,11 +2276,11 @@ size_t ZSTD_decompressStream(ZSTD_DStream* zds, ZSTD_outBuffer* output, ZSTD_inB
                             zds->lhSize = 0;
                             while (gathered.pos < gathered.size) {
                                 size_t const before = gathered.pos;
-                                size_t const h = ZSTD_decompressLegacyStream(zds->legacyContext, legacyVersion, output, &gathered);
+                                size_t const h = ZSTD_decompressLegacyStream_counted(zds, output, &gathered);
                                 if (ZSTD_isError(h)) return h;
                                 RETURN_ERROR_IF(gathered.pos == before, GENERIC, "the legacy decoder does not take its frame header");
                         }   }
-                        {   size_t const hint = ZSTD_decompressLegacyStream(zds->legacyContext, legacyVersion, output, input);
+                        {   size_t const hint = ZSTD_decompressLegacyStream_counted(zds, output, input);
                             if (hint==0) zds->streamStage = zdss_init;   /* or stay in stage zdss_loadHeader */
                             return hint;
                     }   }
